@@ -511,7 +511,7 @@ def dict_option_cases(rng, n):
     cases = []
     pats = [["k\\d"], ["k"], ["[a-z]+"], ["id_.*", "x"], ["k\\d", "n.*"], [".*"], ["k1|k2"],
             ["\\d+", "[0-9a-f]+"], ["k\\d", "k.*"], ["k1", "k\\d", "k.+"], ["[0-9a-f]+", "\\d+"],       # overlapping lists: order matters
-            ["k|x"], ["a|b", "k\\d"], ["id|k1"], ["\\d+"]]                                                # top-level alternation; trailing newline keys
+            ["k|x"], ["a|b", "k\\d"], ["id|k1"], ["\\d+"], ["(?i)k\\d"], ["(?i)[a-z]+\\d?"], ["(?x) k \\d  # key"]]                                                # top-level alternation; trailing newline keys
     keysets = [["k1", "k2"], ["k1", "kx"], ["k", "k1"], ["k12", "k3"], ["name", "n"], ["id_1", "id_2"], ["x"], ["xy"], ["k1"], ["K1"], ["k1 "],
                ["10", "ff"], ["ff", "10"], ["k1", "kx", "k2"], ["kx", "k1"], ["kiwi", "xylophone"], ["apple", "ab"], ["k", "x"], ["a", "b"],
                ["id_x", "k1"], ["12\n", "34"], ["k1\n"]]
@@ -572,7 +572,7 @@ def option_set(o):
         env["dkf"] = ["extra", "child"]
     if o["dk"] in ("dkr", "both"):
         argv += ["--dkr", "k\\d", "x"]
-        env["dkr"] = ["(?:k\\d)\\Z", "(?:x)\\Z"]
+        env["dkr"] = ["k\\d\\Z", "x\\Z"]
     preamble = None
     if o["preamble"]:
         argv += ["--preamble", "  import os  "]
